@@ -237,8 +237,14 @@ tpx('two_workers', ['SUBMIT(0);SUBMIT(1);STOP_MARKS(2);JOIN(0);JOIN(1)', 'WORKER
 SRX = ['babylon/serialization/traits.cpp']
 def ser(name, defs, **kw):
     S('ser_' + name, 'serial/ser.cpp', {'assert': 'C11'}, defs=defs, extra=SRX, models=['sc'], bound=12, xsrc=['serial/pbmodel.cpp'], **kw)
-ser('roundtrip', ['VF_ROUNDTRIP=1'])
-ser('hostile_len4', ['VF_INLEN=4'], opts={'oob': '1'})
+ser('roundtrip_u64', ['VF_ROUNDTRIP=1', 'VF_SHAPE=0'])
+ser('roundtrip_i32_bool', ['VF_ROUNDTRIP=1', 'VF_SHAPE=1'])
+ser('roundtrip_nested', ['VF_ROUNDTRIP=1', 'VF_SHAPE=2'])
+ser('hostile_len4_u64', ['VF_INLEN=4', 'VF_SHAPE=0'], opts={'oob': '1'})
+ser('hostile_len4_nested', ['VF_INLEN=4', 'VF_SHAPE=2'], opts={'oob': '1'})
+ser('hostile_len3_all', ['VF_INLEN=3', 'VF_SHAPE=3'], opts={'oob': '1'})
+ser('roundtrip_all', ['VF_ROUNDTRIP=1', 'VF_SHAPE=3'], tiers=TH, timeout=9000, qcap=3000)
+ser('hostile_len6_all', ['VF_INLEN=6', 'VF_SHAPE=3'], opts={'oob': '1'}, tiers=TH, timeout=9000, qcap=3000)
 
 # ----------------------------------------------------------------------------------------------- manifest texts
 LEVEL_TEXT = {
